@@ -16,7 +16,10 @@ import (
 	"fmt"
 	"sort"
 	"strings"
+	"time"
 
+	"google.golang.org/protobuf/proto"
+	"google.golang.org/protobuf/types/known/durationpb"
 	"google.golang.org/protobuf/types/known/structpb"
 	corev1 "k8s.io/api/core/v1"
 	metav1 "k8s.io/apimachinery/pkg/apis/meta/v1"
@@ -33,7 +36,10 @@ import (
 )
 
 type c04Cond struct {
-	T string `json:"t"` // always | hasExtra | lacksExtra | ctxHas | ctxLacks | ctxEq | desiredHas | observedHas
+	// always | hasExtra | lacksExtra | ctxHas | ctxLacks | ctxEq | desiredHas | observedHas |
+	// xrConnHas (k) | obsConnHas (k = resource name, v = key) | credHas (k = credential, v = key) |
+	// credVal (k = credential, v = value) | hasInput
+	T string `json:"t"`
 	K string `json:"k"`
 	V string `json:"v"`
 }
@@ -45,7 +51,7 @@ type c04Sel struct {
 }
 
 type c04Act struct {
-	T       string  `json:"t"` // add | del | ctx | delctx | require | result | cond | xrReady | error
+	T       string  `json:"t"` // add | del | ctx | delctx | require | result | cond | xrReady | error | ttl
 	RName   string  `json:"rname"`
 	Kind    string  `json:"kind"`
 	Content int     `json:"content"`
@@ -68,6 +74,13 @@ type c04Rule struct {
 type c04Cred struct {
 	Name   string `json:"name"`
 	Secret string `json:"secret"`
+	Src    string `json:"src,omitempty"`   // "" = Secret | "none" = source None
+	NoRef  bool   `json:"noRef,omitempty"` // secret-sourced without a secretRef
+}
+
+type c04ObjConn struct {
+	Obj    string `json:"obj"`    // composed object name
+	Secret string `json:"secret"` // its spec.writeConnectionSecretToRef.name
 }
 
 type c04Step struct {
@@ -75,6 +88,8 @@ type c04Step struct {
 	Input string    `json:"input"` // "" = none; else the value of input.spec.v
 	Creds []c04Cred `json:"creds"`
 	Rules []c04Rule `json:"rules"`
+	// the step's input is raw bytes that do not decode as a JSON object
+	BadInput bool `json:"badInput,omitempty"`
 }
 
 type c04Extra struct {
@@ -94,6 +109,11 @@ type c04Scn struct {
 	Cluster []c04Extra  `json:"cluster"`
 	Secrets []c04Secret `json:"secrets"`
 	Steps   []c04Step   `json:"steps"`
+	// the XR's spec.writeConnectionSecretToRef.name ("" = none), those of composed objects, and
+	// the Secrets whose Get answers an error other than NotFound
+	XRConn  string       `json:"xrConn,omitempty"`
+	ObjConn []c04ObjConn `json:"objConn,omitempty"`
+	FailGet []string     `json:"failGet,omitempty"`
 }
 
 type c04Res struct {
@@ -113,6 +133,16 @@ type c04Req struct {
 	Extra    []c04ExtraSeen `json:"extra"`
 	Input    string         `json:"input"`
 	Creds    []c04CredSeen  `json:"creds"`
+	HasInput bool           `json:"hasInput"`
+	Meta     string         `json:"meta"` // meta.tag
+	XRName   string         `json:"xrName"`
+	XRConn   [][2]string    `json:"xrConn"`
+	ObsConn  []c04ConnSeen  `json:"obsConn"`
+}
+
+type c04ConnSeen struct {
+	RName string      `json:"rname"`
+	Data  [][2]string `json:"data"`
 }
 
 type c04ExtraSeen struct {
@@ -122,8 +152,18 @@ type c04ExtraSeen struct {
 }
 
 type c04CredSeen struct {
-	Name string   `json:"name"`
-	Keys []string `json:"keys"`
+	Name string      `json:"name"`
+	Keys []string    `json:"keys"`
+	Data [][2]string `json:"data"`
+}
+
+func c04KV(m map[string][]byte) [][2]string {
+	out := [][2]string{}
+	for k, v := range m {
+		out = append(out, [2]string{k, string(v)})
+	}
+	sort.Slice(out, func(i, j int) bool { return out[i][0] < out[j][0] })
+	return out
 }
 
 type c04Event struct {
@@ -138,6 +178,7 @@ type c04CondOut struct {
 	Status string `json:"status"`
 	Reason string `json:"reason"`
 	Claim  bool   `json:"claim"`
+	Msg    string `json:"msg"`
 }
 
 type c04Obs struct {
@@ -176,6 +217,24 @@ func c04Holds(c c04Cond, req *fnv1.RunFunctionRequest) bool {
 	case "observedHas":
 		_, ok := req.GetObserved().GetResources()[c.K]
 		return ok
+	case "xrConnHas":
+		_, ok := req.GetObserved().GetComposite().GetConnectionDetails()[c.K]
+		return ok
+	case "obsConnHas":
+		_, ok := req.GetObserved().GetResources()[c.K].GetConnectionDetails()[c.V]
+		return ok
+	case "credHas":
+		_, ok := req.GetCredentials()[c.K].GetCredentialData().GetData()[c.V]
+		return ok
+	case "credVal":
+		for _, v := range req.GetCredentials()[c.K].GetCredentialData().GetData() {
+			if string(v) == c.V {
+				return true
+			}
+		}
+		return false
+	case "hasInput":
+		return req.GetInput() != nil
 	}
 	return false
 }
@@ -233,6 +292,10 @@ func c04Eval(st c04Step, req *fnv1.RunFunctionRequest) (*fnv1.RunFunctionRespons
 			case "cond":
 				stt := map[string]fnv1.Status{"True": fnv1.Status_STATUS_CONDITION_TRUE, "False": fnv1.Status_STATUS_CONDITION_FALSE, "Unknown": fnv1.Status_STATUS_CONDITION_UNKNOWN}[a.Status]
 				c := &fnv1.Condition{Type: a.K, Status: stt, Reason: a.Reason}
+				if a.Msg != "" {
+					m := a.Msg
+					c.Message = &m
+				}
 				if a.Claim {
 					t := fnv1.Target_TARGET_COMPOSITE_AND_CLAIM
 					c.Target = &t
@@ -247,6 +310,8 @@ func c04Eval(st c04Step, req *fnv1.RunFunctionRequest) (*fnv1.RunFunctionRespons
 				} else {
 					rsp.Desired.Composite.Ready = fnv1.Ready_READY_FALSE
 				}
+			case "ttl":
+				rsp.Meta = &fnv1.ResponseMeta{Ttl: durationpb.New(time.Minute)}
 			case "error":
 				return nil, errors.New("function error")
 			}
@@ -289,12 +354,41 @@ func c04Run(s c04Scn) (c04Obs, []Mon) {
 	sch := runtime.NewScheme()
 	_ = corev1.AddToScheme(sch)
 	st.scheme = sch
+	secData := map[string]map[string][]byte{}
 	for _, sec := range s.Secrets {
 		d := map[string][]byte{}
 		for _, k := range sec.Keys {
-			d[k] = []byte("v-" + k)
+			d[k] = []byte(sec.Name + ":" + k)
 		}
 		st.Seed(&corev1.Secret{ObjectMeta: metav1.ObjectMeta{Name: sec.Name, Namespace: "creds"}, Data: d})
+		secData[sec.Name] = d
+	}
+	// connection secret references of the XR and of composed objects
+	setRef := func(name string) func(u *unstructured.Unstructured) {
+		return func(u *unstructured.Unstructured) {
+			_ = unstructured.SetNestedMap(u.Object, map[string]any{"namespace": "creds", "name": name}, "spec", "writeConnectionSecretToRef")
+		}
+	}
+	if s.XRConn != "" {
+		st.Mutate(xwXRGVK.GroupKind(), "", xwXRName, setRef(s.XRConn))
+	}
+	for _, oc := range s.ObjConn {
+		for _, o := range s.Objs {
+			if o.Name == oc.Obj {
+				st.Mutate(xwKindGVK(o.Kind).GroupKind(), "", o.Name, setRef(oc.Secret))
+			}
+		}
+	}
+	// Gets of these Secrets answer an error other than NotFound
+	failGet := map[string]bool{}
+	for _, n := range s.FailGet {
+		failGet[n] = true
+	}
+	st.Plan = func(c CallInfo) Outcome {
+		if c.Verb == "get" && c.GK == "Secret" && failGet[c.Name] {
+			return Fail
+		}
+		return OK
 	}
 	obs := c04Obs{Reqs: []c04Req{}, Events: []c04Event{}, Conds: []c04CondOut{}, Desired: []c04Res{}, XRReady: "unset"}
 	var mons []Mon
@@ -307,8 +401,18 @@ func c04Run(s c04Scn) (c04Obs, []Mon) {
 			raw, _ := json.Marshal(map[string]any{"apiVersion": "in.example.org/v1", "kind": "Input", "spec": map[string]any{"v": sp.Input}})
 			ps.Input = &runtime.RawExtension{Raw: raw}
 		}
+		if sp.BadInput {
+			ps.Input = &runtime.RawExtension{Raw: []byte(`["not", "an", "object"]`)}
+		}
 		for _, c := range sp.Creds {
-			ps.Credentials = append(ps.Credentials, v1.FunctionCredentials{Name: c.Name, Source: v1.FunctionCredentialsSourceSecret, SecretRef: &xpv1.SecretReference{Namespace: "creds", Name: c.Secret}})
+			fc := v1.FunctionCredentials{Name: c.Name, Source: v1.FunctionCredentialsSourceSecret, SecretRef: &xpv1.SecretReference{Namespace: "creds", Name: c.Secret}}
+			if c.Src == "none" {
+				fc.Source = v1.FunctionCredentialsSourceNone
+			}
+			if c.NoRef {
+				fc.SecretRef = nil
+			}
+			ps.Credentials = append(ps.Credentials, fc)
 		}
 		rev.Spec.Pipeline = append(rev.Spec.Pipeline, ps)
 	}
@@ -317,12 +421,25 @@ func c04Run(s c04Scn) (c04Obs, []Mon) {
 	var lastSel map[string]*fnv1.ResourceSelector
 	lastResults := map[int][]*fnv1.Result{} // results of each step's last (accepted) call
 	lastFatal := map[int]bool{}
+	lastConds := map[int][]*fnv1.Condition{} // conditions of each step's last (accepted) call
+	firstReq := map[int]*fnv1.RunFunctionRequest{} // first request of each step
+	var prevRsp *fnv1.RunFunctionResponse          // the latest answer of any step
 	inner := composite.FunctionRunnerFn(func(_ context.Context, name string, req *fnv1.RunFunctionRequest) (*fnv1.RunFunctionResponse, error) {
 		i := stepIdx[name]
-		r := c04Req{Step: i, Fn: name, Observed: c04Resources(req.GetObserved().GetResources(), true), Desired: c04Resources(req.GetDesired().GetResources(), false), Ctx: [][2]string{}, Extra: []c04ExtraSeen{}, Creds: []c04CredSeen{}}
-		if req.GetObserved().GetComposite().GetResource().AsMap()["metadata"].(map[string]any)["name"] != xwXRName {
+		r := c04Req{Step: i, Fn: name, Observed: c04Resources(req.GetObserved().GetResources(), true), Desired: c04Resources(req.GetDesired().GetResources(), false), Ctx: [][2]string{}, Extra: []c04ExtraSeen{}, Creds: []c04CredSeen{}, ObsConn: []c04ConnSeen{}}
+		if md, ok := req.GetObserved().GetComposite().GetResource().AsMap()["metadata"].(map[string]any); ok {
+			r.XRName, _ = md["name"].(string)
+		}
+		if r.XRName != xwXRName {
 			mons = append(mons, Mon{Sig: "C04:observed-xr-wrong", Why: "observed composite is not the XR"})
 		}
+		r.XRConn = c04KV(req.GetObserved().GetComposite().GetConnectionDetails())
+		for rn, or := range req.GetObserved().GetResources() {
+			r.ObsConn = append(r.ObsConn, c04ConnSeen{RName: rn, Data: c04KV(or.GetConnectionDetails())})
+		}
+		sort.Slice(r.ObsConn, func(a, b int) bool { return r.ObsConn[a].RName < r.ObsConn[b].RName })
+		r.HasInput = req.GetInput() != nil
+		r.Meta = req.GetMeta().GetTag()
 		for k, v := range req.GetContext().GetFields() {
 			r.Ctx = append(r.Ctx, [2]string{k, v.GetStringValue()})
 		}
@@ -343,7 +460,7 @@ func c04Run(s c04Scn) (c04Obs, []Mon) {
 			}
 		}
 		for n, c := range req.GetCredentials() {
-			cs := c04CredSeen{Name: n, Keys: []string{}}
+			cs := c04CredSeen{Name: n, Keys: []string{}, Data: c04KV(c.GetCredentialData().GetData())}
 			for k := range c.GetCredentialData().GetData() {
 				cs.Keys = append(cs.Keys, k)
 			}
@@ -391,6 +508,92 @@ func c04Run(s c04Scn) (c04Obs, []Mon) {
 		if fmt.Sprint(got) != fmt.Sprint(want) {
 			mons = append(mons, Mon{Sig: "C04:extra-resources-not-matching-requirements", Why: fmt.Sprintf("call %d (step %d): handed extra resources %v, the step's latest requirements select %v", len(obs.Reqs)-1, i, got, want)})
 		}
+		// C04 monitors, evaluated on the real request against the scenario alone (no model):
+		// (a) the step was prepared: its input decodes and every secret-sourced credential's Secret
+		// exists and can be read; the request carries exactly the step's OWN credentials and input
+		{
+			sp := s.Steps[i]
+			wantCreds := map[string][][2]string{}
+			prepared := !sp.BadInput
+			for _, c := range sp.Creds {
+				if c.Src == "none" || c.NoRef {
+					continue
+				}
+				d, ok := secData[c.Secret]
+				if !ok || failGet[c.Secret] {
+					prepared = false
+					continue
+				}
+				wantCreds[c.Name] = c04KV(d)
+			}
+			if !prepared {
+				mons = append(mons, Mon{Sig: "C04:called-despite-failed-preparation", Why: fmt.Sprintf("step %d was called although its input does not decode or a credentials Secret cannot be read", i)})
+			} else {
+				gotCreds := map[string][][2]string{}
+				for _, c := range r.Creds {
+					gotCreds[c.Name] = c.Data
+				}
+				if fmt.Sprint(gotCreds) != fmt.Sprint(wantCreds) {
+					mons = append(mons, Mon{Sig: "C04:credentials-not-own", Why: fmt.Sprintf("call %d (step %d): credentials %v, the step's own credentials are %v", len(obs.Reqs)-1, i, gotCreds, wantCreds)})
+				}
+			}
+			if r.Input != sp.Input || r.HasInput != (sp.Input != "") {
+				mons = append(mons, Mon{Sig: "C04:input-not-own", Why: fmt.Sprintf("call %d (step %d): input %q (set=%v), the step's own input is %q", len(obs.Reqs)-1, i, r.Input, r.HasInput, sp.Input)})
+			}
+			if req.GetMeta() != nil {
+				mons = append(mons, Mon{Sig: "C04:unexpected-meta", Why: "the composer sets no request meta"})
+			}
+		}
+		// (b) the observed state carries the connection details of the XR's and of every observed
+		// composed resource's own connection Secret
+		{
+			want := [][2]string{}
+			if d, ok := secData[s.XRConn]; ok {
+				want = c04KV(d)
+			}
+			if fmt.Sprint(r.XRConn) != fmt.Sprint(want) {
+				mons = append(mons, Mon{Sig: "C04:observed-connection-details-wrong", Why: fmt.Sprintf("call %d: observed XR connection details %v, its connection Secret holds %v", len(obs.Reqs)-1, r.XRConn, want)})
+			}
+			for _, o := range r.Observed {
+				want := [][2]string{}
+				for _, oc := range s.ObjConn {
+					if d, ok := secData[oc.Secret]; ok && oc.Obj == o.Name {
+						want = c04KV(d)
+					}
+				}
+				got := [][2]string{}
+				for _, oc := range r.ObsConn {
+					if oc.RName == o.RName {
+						got = oc.Data
+					}
+				}
+				if fmt.Sprint(got) != fmt.Sprint(want) {
+					mons = append(mons, Mon{Sig: "C04:observed-connection-details-wrong", Why: fmt.Sprintf("call %d: observed resource %s (%s) connection details %v, its connection Secret holds %v", len(obs.Reqs)-1, o.RName, o.Name, got, want)})
+				}
+			}
+		}
+		// (c) threading: the first call of step k carries the desired state and context of the answer
+		// accepted from step k-1 (empty for the first step); a later round of the same step carries
+		// the same desired state and the context of its own previous answer
+		{
+			var wantD *fnv1.State
+			var wantC *structpb.Struct
+			if first := firstReq[i]; first != nil {
+				wantD, wantC = first.GetDesired(), prevRsp.GetContext()
+			} else if i == 0 {
+				wantD, wantC = &fnv1.State{}, &structpb.Struct{}
+			} else {
+				wantD, wantC = prevRsp.GetDesired(), prevRsp.GetContext()
+			}
+			sameCtx := proto.Equal(req.GetContext(), wantC) || (len(req.GetContext().GetFields()) == 0 && len(wantC.GetFields()) == 0)
+			sameDes := proto.Equal(req.GetDesired(), wantD) || (proto.Size(req.GetDesired()) == 0 && proto.Size(wantD) == 0)
+			if !sameCtx || !sameDes {
+				mons = append(mons, Mon{Sig: "C04:state-not-threaded", Why: fmt.Sprintf("call %d (step %d): desired/context are not those of the previous answer (desired same=%v, context same=%v)", len(obs.Reqs)-1, i, sameDes, sameCtx)})
+			}
+			if firstReq[i] == nil {
+				firstReq[i] = proto.Clone(req).(*fnv1.RunFunctionRequest)
+			}
+		}
 		if why := c04BetaRoundTrip(req); why != "" {
 			mons = append(mons, Mon{Sig: "C04:beta-reencoding-lossy", Why: why})
 		}
@@ -415,7 +618,9 @@ func c04Run(s c04Scn) (c04Obs, []Mon) {
 				}
 			}
 			lastSel = rsp.GetRequirements().GetExtraResources()
+			prevRsp = proto.Clone(rsp).(*fnv1.RunFunctionResponse)
 			lastResults[i] = rsp.GetResults()
+			lastConds[i] = rsp.GetConditions()
 			reqCanon[i] = append(reqCanon[i], canon)
 			lastFatal[i] = fatal
 			if why := c04BetaRspRoundTrip(rsp); why != "" {
@@ -441,7 +646,7 @@ func c04Run(s c04Scn) (c04Obs, []Mon) {
 		obs.Events = append(obs.Events, c04Event{Type: string(e.Event.Type), Msg: e.Event.Message, Claim: e.Target == composite.CompositionTargetCompositeAndClaim, Step: e.Detail})
 	}
 	for _, c := range res.Conditions {
-		obs.Conds = append(obs.Conds, c04CondOut{Type: string(c.Condition.Type), Status: string(c.Condition.Status), Reason: string(c.Condition.Reason), Claim: c.Target == composite.CompositionTargetCompositeAndClaim})
+		obs.Conds = append(obs.Conds, c04CondOut{Type: string(c.Condition.Type), Status: string(c.Condition.Status), Reason: string(c.Condition.Reason), Claim: c.Target == composite.CompositionTargetCompositeAndClaim, Msg: c.Condition.Message})
 	}
 	for _, cd := range res.Composed {
 		obs.Desired = append(obs.Desired, c04Res{RName: string(cd.ResourceName), Ready: cd.Ready})
@@ -493,6 +698,72 @@ func c04Run(s c04Scn) (c04Obs, []Mon) {
 			}
 		}
 	}
+	// C04 monitor, evaluated on the real result: the conditions of every step's accepted answer are
+	// surfaced in pipeline order with type, reason, message and target untouched and the status
+	// mapped TRUE -> True, FALSE -> False, anything else -> Unknown; a fatal result surfaces the
+	// conditions up to and including its own answer's
+	{
+		want := []string{}
+		sawFatal := false
+		for i := 0; i < len(s.Steps) && !sawFatal; i++ {
+			if _, called := lastResults[i]; !called {
+				break
+			}
+			for _, c := range lastConds[i] {
+				st := "Unknown"
+				switch c.GetStatus() { //nolint:exhaustive
+				case fnv1.Status_STATUS_CONDITION_TRUE:
+					st = "True"
+				case fnv1.Status_STATUS_CONDITION_FALSE:
+					st = "False"
+				}
+				want = append(want, fmt.Sprintf("%s/%s/%s/%s/%v", c.GetType(), st, c.GetReason(), c.GetMessage(), c.GetTarget() == fnv1.Target_TARGET_COMPOSITE_AND_CLAIM))
+			}
+			sawFatal = lastFatal[i]
+		}
+		if err == nil || sawFatal {
+			got := []string{}
+			for _, c := range obs.Conds {
+				got = append(got, fmt.Sprintf("%s/%s/%s/%s/%v", c.Type, c.Status, c.Reason, c.Msg, c.Claim))
+			}
+			if fmt.Sprint(got) != fmt.Sprint(want) {
+				mons = append(mons, Mon{Sig: "C04:condition-dropped-or-altered", Why: fmt.Sprintf("the accepted answers carried the conditions %q in pipeline order; the conditions returned are %q", want, got)})
+			}
+		}
+	}
+	// C04 monitor: when the observed state can be built (every referenced object that is controlled
+	// by this XR is named, no connection Secret read answers an error other than NotFound) and the
+	// first step is prepared, the first step is called
+	if len(obs.Reqs) == 0 {
+		canObserve := !failGet[s.XRConn]
+		for _, rf := range s.Refs {
+			for _, o := range s.Objs {
+				if o.Kind != rf.Kind || o.Name != rf.Name || o.Ctrl == "other" {
+					continue
+				}
+				if o.Annot == "" {
+					canObserve = false
+				}
+				for _, oc := range s.ObjConn {
+					if oc.Obj == o.Name && failGet[oc.Secret] {
+						canObserve = false
+					}
+				}
+			}
+		}
+		prepared := !s.Steps[0].BadInput
+		for _, c := range s.Steps[0].Creds {
+			if c.Src == "none" || c.NoRef {
+				continue
+			}
+			if _, ok := secData[c.Secret]; !ok || failGet[c.Secret] {
+				prepared = false
+			}
+		}
+		if canObserve && prepared {
+			mons = append(mons, Mon{Sig: "C04:pipeline-not-started", Why: "the observed state can be built and the first step's input and credentials are available, yet no function was called"})
+		}
+	}
 	// C04/C03 monitor: a step's answer is accepted only if its requirements equal those of the previous round
 	if err == nil {
 		for i, cs := range reqCanon {
@@ -524,7 +795,20 @@ func c04GenStep(r *Rng, i int) c04Step {
 		st.Input = Pick(r, []string{"in-a", "in-b"})
 	}
 	if r.Chance(1, 4) {
-		st.Creds = append(st.Creds, c04Cred{Name: "c1", Secret: Pick(r, []string{"sec1", "sec2", "missing"})})
+		nc := r.Range(1, 2)
+		for j := 0; j < nc; j++ {
+			c := c04Cred{Name: Pick(r, []string{"c1", "c1", "c2"}), Secret: Pick(r, []string{"sec1", "sec2", "sec1", "sec2", "missing"})}
+			if r.Chance(1, 8) {
+				c.Src = "none"
+			}
+			if r.Chance(1, 10) {
+				c.NoRef = true
+			}
+			st.Creds = append(st.Creds, c)
+		}
+	}
+	if r.Chance(1, 30) {
+		st.BadInput = true
 	}
 	nr := r.Range(1, 4)
 	for j := 0; j < nr; j++ {
@@ -536,6 +820,19 @@ func c04GenStep(r *Rng, i int) c04Step {
 			rule.If = c04Cond{T: Pick(r, []string{"ctxHas", "ctxLacks"}), K: Pick(r, []string{"k1", "k2"})}
 		case 2:
 			rule.If = c04Cond{T: Pick(r, []string{"desiredHas", "observedHas"}), K: Pick(r, c01RNames)}
+		case 3:
+			switch r.Intn(5) {
+			case 0:
+				rule.If = c04Cond{T: "xrConnHas", K: Pick(r, []string{"user", "token"})}
+			case 1:
+				rule.If = c04Cond{T: "obsConnHas", K: Pick(r, c01RNames), V: Pick(r, []string{"user", "token"})}
+			case 2:
+				rule.If = c04Cond{T: "credHas", K: Pick(r, []string{"c1", "c2"}), V: Pick(r, []string{"user", "token"})}
+			case 3:
+				rule.If = c04Cond{T: "credVal", K: Pick(r, []string{"c1", "c2"}), V: Pick(r, []string{"sec1:user", "sec2:token", "sec1:token"})}
+			case 4:
+				rule.If = c04Cond{T: "hasInput"}
+			}
 		}
 		na := r.Range(1, 3)
 		for k := 0; k < na; k++ {
@@ -560,10 +857,12 @@ func c04GenStep(r *Rng, i int) c04Step {
 			case 9:
 				rule.Do = append(rule.Do, c04Act{T: "result", Sev: Pick(r, []string{"warning", "normal", "normal", "unspecified", "fatal"}), Msg: fmt.Sprintf("m%d", r.Intn(3)), Claim: r.Bool()})
 			case 10:
-				rule.Do = append(rule.Do, c04Act{T: "cond", K: Pick(r, []string{"Ready", "Custom", "DatabaseReady"}), Status: Pick(r, []string{"True", "False", "Unknown"}), Reason: "R", Claim: r.Bool()})
+				rule.Do = append(rule.Do, c04Act{T: "cond", K: Pick(r, []string{"Ready", "Custom", "DatabaseReady"}), Status: Pick(r, []string{"True", "False", "Unknown", "Unspecified"}), Reason: "R", Claim: r.Bool(), Msg: Pick(r, []string{"", "cm"})})
 			case 11:
 				if r.Chance(1, 3) {
 					rule.Do = append(rule.Do, c04Act{T: "error"})
+				} else if r.Chance(1, 3) {
+					rule.Do = append(rule.Do, c04Act{T: "ttl"})
 				} else {
 					rule.Do = append(rule.Do, c04Act{T: "xrReady", Ready: r.Bool()})
 				}
@@ -618,6 +917,9 @@ func c04Gen(r *Rng) c04Scn {
 		}
 		if r.Chance(7, 8) {
 			s.Objs = append(s.Objs, o)
+			if r.Chance(1, 3) {
+				s.ObjConn = append(s.ObjConn, c04ObjConn{Obj: o.Name, Secret: Pick(r, []string{"sec1", "sec2", "missing"})})
+			}
 		}
 		s.Refs = append(s.Refs, xwRef{Kind: o.Kind, Name: o.Name})
 	}
@@ -625,6 +927,12 @@ func c04Gen(r *Rng) c04Scn {
 		if r.Chance(2, 3) {
 			s.Cluster = append(s.Cluster, e)
 		}
+	}
+	if r.Chance(1, 3) {
+		s.XRConn = Pick(r, []string{"sec1", "sec2", "missing"})
+	}
+	if r.Chance(1, 8) {
+		s.FailGet = []string{Pick(r, []string{"sec1", "sec2"})}
 	}
 	n := r.Range(1, 4)
 	for j := 0; j < n; j++ {
